@@ -112,7 +112,15 @@ def main():
     # ---- search stage
     searched = None
     if (not proof_ok or disagreements) and not failures:
-        hints = {'broken': broken, 'disagreements': disagreements[:50], 'regen': build.regen}
+        # behind the disagreeing inputs: the by-construction shapes of tools/gen/shapes.py (inputs outside the generators'
+        # grammars; every one passes every search oracle on the unchanged tree, tools/misc/validate_shapes.py)
+        try:
+            sys.path.insert(0, os.path.join(HERE, 'gen'))
+            import shapes as _shapes
+            shape_hints = [{'stage': 'shape', 'input': [ord(c) for c in t]} for t in _shapes.shapes_for(prop)]
+        except Exception:
+            shape_hints = []
+        hints = {'broken': broken, 'disagreements': disagreements[:50] + shape_hints, 'regen': build.regen}
         try:
             searched = mod.search(ctx, hints)
         except Exception:
